@@ -16,7 +16,7 @@ use serde_json::json;
 use std::collections::HashMap;
 use std::io::{BufRead, Write};
 
-pub const RULE: &str = "emit phase: 16 worker PROCESSES x 4 threads; every thread performs N/64 calls (N = 256*16 total per entry point in the quick tier, 4096*16 in the thorough tier... see coverage.counters for the measured numbers) of each randomized entry point with identical arguments, for both groups: SecretKey::new, SecretKey::split (3-of-5: the polynomial coefficients a1,a2 are recovered from the shares), ProofCommitmentChallenge::new, PublicKey::sign_crypt (u, v), encrypt_time_lock (u, v), encrypt_key_el_gamal (c1), encrypt_key_el_gamal_with_proof (c1 and r1 = P*blinder_proof - c1*challenge), ProofCommitment::generate (u and secret x), ProofOfKnowledgeTimestamp::generate (u). Each observable is logged as {pid, tid, seq, entry, pool, value}. check phase (offline, over ALL logs): within each pool - scalars per suite, key-group points per suite, signature-group points per suite, masks - every value must be globally distinct across calls, threads and processes; pools are shared across entry points so a value reused between two entry points (e.g. the same r in signcryption and time-lock) shows as equal u. A collision is reported with both witnesses. distinct_nontrivial = number of distinct observable values seen; evaluations = number of observables checked. A generator that is weak but never repeats is observationally indistinguishable and not claimed.";
+pub const RULE: &str = "emit phase: 16 worker PROCESSES x 4 threads; every thread performs (1) HOMOGENEOUS sequences - n consecutive calls of ONE entry point with identical arguments (n = 80 per thread and group in the quick tier, 320 in the thorough tier, i.e. N = 5120 / 20480 calls per entry point and group; a generator that recycles state with a period <= n is visible whatever happens in between) for SecretKey::new, ProofCommitmentChallenge::new, sign_crypt, encrypt_time_lock, encrypt_key_el_gamal, ProofCommitment::generate, split - and (2) an INTERLEAVED sequence in which every randomized entry point is called once per round and ALL observables are logged, for both groups: SecretKey::new, SecretKey::split (3-of-5: the polynomial coefficients a1,a2 are recovered from the shares), ProofCommitmentChallenge::new, PublicKey::sign_crypt (u, v), encrypt_time_lock (u, v), encrypt_key_el_gamal (c1), encrypt_key_el_gamal_with_proof (c1 and r1 = P*blinder_proof - c1*challenge), ProofCommitment::generate (u and secret x), ProofOfKnowledgeTimestamp::generate (u). Each observable is logged as {pid, tid, seq, entry, pool, value}. check phase (offline, over ALL logs): within each pool - scalars per suite, key-group points per suite, signature-group points per suite, masks - every value must be globally distinct across calls, threads and processes; pools are shared across entry points so a value reused between two entry points (e.g. the same r in signcryption and time-lock) shows as equal u. A collision is reported with both witnesses. distinct_nontrivial = number of distinct observable values seen; evaluations = number of observables checked. A generator that is weak but never repeats is observationally indistinguishable and not claimed.";
 
 #[derive(Serialize, Deserialize, Clone)]
 struct Ev {
@@ -38,7 +38,8 @@ pub fn run(ctx: &mut Ctx) {
 
 fn calls_per_thread(t: Tier) -> u32 {
     // 16 processes x 4 threads x this = N per entry point and suite
-    t.pick(16, 64)
+    // homogeneous calls per entry point, thread and group (x 64 threads = N per entry point)
+    t.pick(80, 320)
 }
 
 fn one_thread<C: Suite>(pid: u32, tid: u32, n: u32, out: &mut Vec<Ev>) {
@@ -53,7 +54,45 @@ fn one_thread<C: Suite>(pid: u32, tid: u32, n: u32, out: &mut Vec<Ev>) {
     let mut push = |seq: u32, entry: &str, pool: &str, value: Vec<u8>| {
         out.push(Ev { pid, tid, seq, entry: entry.to_string(), pool: format!("{s}/{pool}"), value: hex::encode(value) });
     };
-    for seq in 0..n {
+    // (1) HOMOGENEOUS sequences: n consecutive calls of ONE entry point with identical arguments
+    //     (a generator that recycles state with some period shows up here whatever the other
+    //     entry points do in between)
+    for seq in 10000..10000 + n {
+        push(seq, "SecretKey::new", "scalar", SecretKey::<C>::new().to_be_bytes().to_vec());
+    }
+    for seq in 20000..20000 + n {
+        push(seq, "ProofCommitmentChallenge::new", "scalar", ProofCommitmentChallenge::<C>::new().to_be_bytes().to_vec());
+    }
+    for seq in 30000..30000 + n {
+        let ct = pk.sign_crypt(SignatureSchemes::Basic, &msg);
+        push(seq, "PublicKey::sign_crypt/u", "pk-point", enc_pt(&ct.u));
+    }
+    for seq in 40000..40000 + n {
+        if let Ok(t) = pk.encrypt_time_lock(SignatureSchemes::Basic, &msg, &id) {
+            push(seq, "PublicKey::encrypt_time_lock/u", "pk-point", enc_pt(&t.u));
+        }
+    }
+    for seq in 50000..50000 + n {
+        if let Ok(e) = pk.encrypt_key_el_gamal(&m) {
+            push(seq, "PublicKey::encrypt_key_el_gamal/c1", "pk-point", enc_pt(&e.c1));
+        }
+    }
+    for seq in 60000..60000 + n {
+        if let Ok((com, x)) = ProofCommitment::<C>::generate(&msg, sig) {
+            let _ = com;
+            push(seq, "ProofCommitment::generate/x", "scalar", x.to_be_bytes().to_vec());
+        }
+    }
+    for seq in 70000..70000 + n {
+        if let Ok(shares) = sk.split(2, 3) {
+            let mut v = shares[0].0.value_vec();
+            v.reverse();
+            push(seq, "SecretKey::split", "scalar", v);
+        }
+    }
+    // (2) INTERLEAVED sequence: every entry point once per round, all observables
+    let n = n.min(16);
+    for seq in 1000..1000 + n {
         let k = SecretKey::<C>::new();
         push(seq, "SecretKey::new", "scalar", k.to_be_bytes().to_vec());
         let k2 = BlsSignature::<C>::new_secret_key();
